@@ -97,3 +97,6 @@ func ceilDiv(a, b int) int {
 
 // ptrOf returns the pointer held in an interface value (a pooled *signal.Buffer[T]).
 func ptrOf(x any) unsafe.Pointer { return unsafe.Pointer(reflect.ValueOf(x).Pointer()) }
+
+// tk folds a token counter into 1..120 so that it is representable in every element type.
+func tk(x int64) int64 { return 1 + (x-1)%120 }
